@@ -64,7 +64,9 @@ class InstanceCatalog:
         """
         assert instance_type is not None
         c = self.__read_catalog()
-        return c.get(instance_type, None)
+        cap = c.get(instance_type, None)
+        # a copy, so that editing the result cannot change the catalog for later lookups
+        return Capacities.update(cap) if cap is not None else None
 
     def map_capacities_to_instance(self, *, cap: Capacities) -> str:
         """
@@ -90,7 +92,7 @@ class InstanceCatalog:
         List available instance types and their capacities
         :return:
         """
-        return self.__read_catalog()
+        return ViewOnlyDict({k: Capacities.update(v) for k, v in self.__read_catalog().items()})
 
 
 
